@@ -679,8 +679,10 @@ fn miri_body(thorough: bool, part: &str) {
         for (mode, first) in [(1u8, Kind::Spinner(900)), (0, Kind::Spinner(900)), (1, Kind::Slider5)] {
             println!("MIRI-STEP taiko relax mode={mode} first={first:?}");
             let o = |k, gap| Obj { kind: k, gap, pos: PosK::Far, sound: 0, col: 0 };
-            let mut objs = vec![o(first, 0), o(first, 300)];
-            objs.extend((0..6).map(|i| Obj { sound: if i % 2 == 0 { 8 } else { 0 }, ..o(Kind::Circle, 200) }));
+            // four long objects 1000 ms apart (the first two only seed the history, the next two are the first difficulty
+            // objects and span whole strain sections before any hit), then eight hits
+            let mut objs = vec![o(first, 0), o(first, 1000), o(first, 1000), o(first, 1000), o(Kind::Circle, 1000)];
+            objs.extend((0..7).map(|i| Obj { sound: if i % 2 == 0 { 8 } else { 0 }, ..o(Kind::Circle, 200) }));
             let map = MapSpec::new(mode, objs).decode();
             for bits in [128u32, 0] {
                 let d = Difficulty::new().mods(bits);
